@@ -504,6 +504,27 @@ theorem mania_none_given_optimal (S acc : K) (h0 : 0 ≤ acc) (h1 : acc ≤ 1) (
 
 end C13
 
+/-- **Open statement** (not proved, outside the property's quantifier; measured by the harness on
+every pattern): global optimality of *every* mania search arm — accuracy given, at least two hit
+results open, the provided ones jointly fitting — among the completions of the provided results.
+`mania_none_given_optimal` is the instance with nothing provided; for the other 25 patterns only
+`mania_selected_is_best_of_window` is proved. -/
+def ManiaProvidedOptimal (K : Type) [Field K] [LinearOrder K] [IsStrictOrderedRing K] [FloorRing K] : Prop :=
+  ∀ (S acc : K) (c : ManiaCfg) (b : ManiaB K), 0 ≤ acc → acc ≤ 1 → 1 < S → b.acc = some acc →
+    2 ≤ b.unknowns → c.nObjects + c.nHoldNotes ≤ u32Max →
+    let n₀ := min (passedU32 c.passed) c.nObjects
+    let N := if c.classic then n₀ else n₀ + c.nHoldNotes
+    let o := @maniaGenRaw K (fieldOps S) c b
+    b.n320.getD 0 + b.n300.getD 0 + b.n200.getD 0 + b.n100.getD 0 + b.n50.getD 0
+        + optMin b.misses n₀ ≤ N →
+    o.accepted = true ∧ o.ok = true ∧ o.state.misses = optMin b.misses n₀ ∧ o.state.totalHits = N ∧
+      ∀ s : ManiaState, s.misses = o.state.misses → s.totalHits = N →
+        (∀ v, b.n320 = some v → s.n320 = v) → (∀ v, b.n300 = some v → s.n300 = v) →
+        (∀ v, b.n200 = some v → s.n200 = v) → (∀ v, b.n100 = some v → s.n100 = v) →
+        (∀ v, b.n50 = some v → s.n50 = v) →
+        |acc - @maniaAcc K (fieldOps S) c.classic o.state|
+          ≤ |acc - @maniaAcc K (fieldOps S) c.classic s|
+
 /-! ## Inventory of arms: which arms are accuracy-driven at all
 
 Every arm of the four generators is one of
